@@ -100,6 +100,11 @@ func verifIsResultWrapperTag(t uint32) bool {
 	return t == (tl.ReqResultHeader{}).TLTag() || t == (tl.ReqError{}).TLTag() || t == (tl.RpcReqResultError{}).TLTag() || t == (tl.RpcReqResultErrorWrapped{}).TLTag()
 }
 
+type verifWrapErr struct{ err error }
+
+func (w verifWrapErr) Error() string { return "while handling: " + w.err.Error() }
+func (w verifWrapErr) Unwrap() error { return w.err }
+
 // VerifC40Response: server prepareResponseBody -> wire order -> client header strip + parseResponseExtra.
 func VerifC40Response() {
 	hctx := &HandlerContext{}
@@ -125,6 +130,11 @@ func VerifC40Response() {
 		code = verifI32()
 		desc = verifStringN(verifLen(2))
 		herr = &Error{Code: code, Description: desc}
+		if verifBool() {
+			// handlers commonly return the rpc error wrapped (fmt.Errorf("...: %w", err)): code and description must still arrive
+			verifCover("wrapped-error")
+			herr = verifWrapErr{herr}
+		}
 	}
 	err := hctx.prepareResponseBody(herr)
 	verifAssert(err == nil, "prepare-ok")
